@@ -25,56 +25,80 @@ def job_derive(job):
     rng = random.Random(seed)
     extra, iso = _decorate(None, None, known, rng, None, grid)
     known2 = sorted(set(known) | {iso})
+    big = len(known2) > 8 or grid[1] - grid[0] > 200     # large universe / long timelines
     lines, g, L, known2, grid = drivers.make_trace(directed, True, list(calls) + extra, labeling=lab, rng=rng,
-                                                   known=known2, grid=grid, ret_obj=True, observe_every=len(known2) <= 8)
+                                                   known=known2, grid=grid, ret_obj=True, observe_every=not big)
     # nested mutable attribute values and a graph attribute (not modelled; part of the raw digest)
     for n in list(g.nodes())[:2]:
         g.add_node(n, nest=[1, 2], nestd={"k": [1]})      # public API: add_node on an existing node updates its attributes
     g.graph["gnest"] = [1]
     lines.append({"op": "observe", "fork": False, "res": "ok", "obs": core.observe(g, L, known2, grid)})
     lo, hi = grid
-    big = len(known2) > 8          # large random universe: no query battery on the results, sampled windows
-    if big:
+    if big:                        # no query battery on the results, sampled windows
         tier = "quick"
-    if prop == "C06":
-        wins = [(f, t) for f in range(lo, hi) for t in range(f, hi)]
-        nwin = len(wins) if tier == "thorough" else 5
-        for (f, t) in (wins if nwin >= len(wins) else rng.sample(wins, nwin)):
-            lines.append(derive.derive_line(g, L, known2, grid, "time_slice",
-                                            {"f": f, "g": t, "gomit": False, "form": rng.choice(["method", "function"])},
-                                            rng=rng, with_battery=(not big and rng.random() < (0.35 if tier == "quick" else 0.2))))
-        f = rng.randint(lo, hi - 1)
-        lines.append(derive.derive_line(g, L, known2, grid, "time_slice", {"f": f, "g": f, "gomit": True, "form": "method"}, rng=rng,
-                                        with_battery=not big))
-        f, t = rng.randint(lo + 1, hi), rng.randint(lo, hi - 1)
-        if t < f:
-            lines.append(derive.derive_line(g, L, known2, grid, "time_slice", {"f": f, "g": t, "gomit": False, "form": "method"}, rng=rng,
+    def emit(tier):
+        if prop == "C06":
+            wins = [(f, t) for f in range(lo, hi) for t in range(f, hi)]
+            nwin = len(wins) if tier == "thorough" else 5
+            for (f, t) in (wins if nwin >= len(wins) else rng.sample(wins, nwin)):
+                lines.append(derive.derive_line(g, L, known2, grid, "time_slice",
+                                                {"f": f, "g": t, "gomit": False, "form": rng.choice(["method", "function"])},
+                                                rng=rng, with_battery=(not big and rng.random() < (0.35 if tier == "quick" else 0.2))))
+            f = rng.randint(lo, hi - 1)
+            lines.append(derive.derive_line(g, L, known2, grid, "time_slice", {"f": f, "g": f, "gomit": True, "form": "method"}, rng=rng,
                                             with_battery=not big))
-        for _ in range(3 if tier == "quick" else 12):
-            (f, t), (f2, t2) = rng.choice(wins), rng.choice(wins)
-            lines.append(derive.derive_line(g, L, known2, grid, "time_slice2", {"f": f, "g": t, "f2": f2, "g2": t2},
-                                            rng=rng, with_battery=False))
-    elif prop in ("C09", "C10", "C11"):
-        kind = {"C09": "snapshots", "C10": "interactions", "C11": "json"}[prop]
-        ncfg = 2 if tier == "quick" else 6
-        for _ in range(ncfg):
-            if kind == "json":
-                drop = rng.random() < 0.3
-                # without the key the argument decides; reading *directed* data as undirected is outside the
-                # property (the link order of the two directions need not be chronological for the merged pair)
-                cfg = {"idkey": rng.choice(["id", "id", "name"]), "dropkey": drop,
-                       "argdir": (True if directed else rng.random() < 0.5) if drop else rng.random() < 0.5}
-            else:
-                cfg = {"delim": rng.choice([" ", ",", "\t", ";"]), "enc": rng.choice(["utf-8", "latin-1", "utf-16"]) if False else rng.choice(["utf-8", "latin-1"]),
-                       "target": rng.choice(["plain", "gz", "bz2", "fileobj"])}
-            lines.append(derive.io_line(g, L, known2, grid, kind, cfg, rng=rng, with_battery=(not big and rng.random() < 0.3)))
-    else:
-        if directed:
-            lines.append(derive.derive_line(g, L, known2, grid, "to_undirected", {"recip": False}, rng=rng, mutate=True, with_battery=not big))
-            lines.append(derive.derive_line(g, L, known2, grid, "to_undirected", {"recip": True}, rng=rng, mutate=True, with_battery=not big))
+            f, t = rng.randint(lo + 1, hi), rng.randint(lo, hi - 1)
+            if t < f:
+                lines.append(derive.derive_line(g, L, known2, grid, "time_slice", {"f": f, "g": t, "gomit": False, "form": "method"}, rng=rng,
+                                                with_battery=not big))
+            for _ in range(3 if tier == "quick" else 12):
+                (f, t), (f2, t2) = rng.choice(wins), rng.choice(wins)
+                lines.append(derive.derive_line(g, L, known2, grid, "time_slice2", {"f": f, "g": t, "f2": f2, "g2": t2},
+                                                rng=rng, with_battery=False))
+        elif prop in ("C09", "C10", "C11"):
+            kind = {"C09": "snapshots", "C10": "interactions", "C11": "json"}[prop]
+            ncfg = 2 if tier == "quick" else 6
+            for _ in range(ncfg):
+                if kind == "json":
+                    drop = rng.random() < 0.3
+                    # without the key the argument decides; reading *directed* data as undirected is outside the
+                    # property (the link order of the two directions need not be chronological for the merged pair)
+                    cfg = {"idkey": rng.choice(["id", "id", "name"]), "dropkey": drop,
+                           "argdir": (True if directed else rng.random() < 0.5) if drop else rng.random() < 0.5}
+                else:
+                    cfg = {"delim": rng.choice([" ", ",", "\t", ";"]), "enc": rng.choice(["utf-8", "latin-1", "utf-16"]) if False else rng.choice(["utf-8", "latin-1"]),
+                           "target": rng.choice(["plain", "gz", "bz2", "fileobj"])}
+                lines.append(derive.io_line(g, L, known2, grid, kind, cfg, rng=rng, with_battery=(not big and rng.random() < 0.3)))
         else:
-            lines.append(derive.derive_line(g, L, known2, grid, "to_directed", {}, rng=rng, mutate=True, with_battery=not big))
+            if directed:
+                lines.append(derive.derive_line(g, L, known2, grid, "to_undirected", {"recip": False}, rng=rng, mutate=True, with_battery=not big))
+                lines.append(derive.derive_line(g, L, known2, grid, "to_undirected", {"recip": True}, rng=rng, mutate=True, with_battery=not big))
+            else:
+                lines.append(derive.derive_line(g, L, known2, grid, "to_directed", {}, rng=rng, mutate=True, with_battery=not big))
+
+    emit(tier)
+    if not big and rng.random() < 0.3:
+        # the same source object is changed (point adds inside the grid) and derived from again: a result may never
+        # depend on what an earlier derivation saw
+        more = [{"op": "add_interaction", "u": rng.choice(known2), "v": rng.choice(known2),
+                 "t": rng.randint(grid[0] + 1, max(grid[0] + 1, grid[1] - 2)), "e": core.NoEnd} for _ in range(rng.randint(1, 3))]
+        drivers.extend_trace(lines, g, L, more, known2, grid, rng)
+        emit("quick")
     return lines
+
+
+def long_history(rng):
+    """3 nodes, a handful of runs that together cover more than 8,192 (pair, instant) rows"""
+    NoEnd = core.NoEnd
+    a = rng.randint(2600, 3400)
+    calls = [{"op": "add_interaction", "u": 1, "v": 2, "t": 0, "e": a},
+             {"op": "add_interaction", "u": 2, "v": 3, "t": rng.randint(1, 50), "e": a + rng.randint(1, 40)},
+             {"op": "add_interaction", "u": 3, "v": 1, "t": rng.randint(60, 90), "e": a - rng.randint(1, 40)},
+             {"op": "add_interaction", "u": 1, "v": 2, "t": a + 5, "e": NoEnd},
+             {"op": "add_interaction", "u": 2, "v": 1, "t": a + 7, "e": a + 30},
+             {"op": "add_interaction", "u": 3, "v": 2, "t": a + 60, "e": a + 64}]
+    rng.shuffle(calls)
+    return calls
 
 
 DERIVED_INVS = {"C06": ["InvSlice", "InvSliceSlice"], "C16": ["InvConvert"], "C09": ["InvSnapshotsRoundTrip"],
@@ -136,6 +160,12 @@ def run(prop, tier, seed):
                  if c["op"] not in ("clear", "clear_edges")]
         jobs.append((rng.randrange(1 << 30), prop, rng.random() < 0.5, calls,
                      rng.choice(IOLABS if prop in ("C09", "C10", "C11") else LABS[:5]), drivers.known_of(calls), drivers.grid_of(calls), tier))
+    # long timelines: a few pairs present over thousands of instants (per-instant expansion of the writers / slices
+    # crosses every usual buffer or block size: more than 8,192 rows)
+    for _ in range(1 if tier == "quick" else 6):
+        calls = long_history(rng)
+        jobs.append((rng.randrange(1 << 30), prop, rng.random() < 0.5, calls,
+                     rng.choice(IOLABS if prop in ("C09", "C10", "C11") else LABS[:5]), [1, 2, 3], drivers.grid_of(calls), tier))
     chk.run_jobs(job_derive, jobs, "der", chunk=200)
     if prop == "C09":
         # 'u v t e' rows read as the span t..e-1 (clause C09_c, spec/ParsersSpec.tla)
